@@ -188,13 +188,17 @@ def _task(ob_name, job_idx, prefix, twin_offset):
                 else:
                     expected = _norm(evalm(m, rec["result"]))
                     st, pl = _concrete_run(ob, job, m, "twin")
-                    if st == "violation" and (pl.extra or {}).get("concrete_only"):
-                        # assertions that only exist on concrete witnesses (real json.dumps/loads on real floats):
-                        # the concrete run on the unstubbed code IS the replay
-                        out["violations"].append(dict(kind=pl.kind, message=pl.message, model=jsonable(m), extra=jsonable(pl.extra), job=jsonable(job),
-                                                      reproduced=True, concrete=dict(kind=pl.kind, message=pl.message), raw_model={k: str(v) for k, v in m.items()}))
-                    elif st == "violation":
-                        out["errors"].append(f"twin: concrete run violates ({pl}) where symbolic path proved the property; job={job} model={m}")
+                    if st == "violation":
+                        # The unstubbed real code, run on a solver model of this path, violates a property assertion that the
+                        # symbolic path (real arithmetic, rebindings) proved: the concrete run IS the replay of a counterexample
+                        # the numeric model abstracts away (float rounding, tolerance tests, dtype effects, real json).  It is
+                        # run a second time and reported only if it reproduces.
+                        st2, pl2 = _concrete_run(ob, job, m, "replay")
+                        if st2 == "violation":
+                            out["violations"].append(dict(kind=pl2.kind, message=pl2.message + "  [found on the concrete twin of a symbolic path]", model=jsonable(m), extra=jsonable(pl2.extra),
+                                                          job=jsonable(job), reproduced=True, concrete=dict(kind=pl2.kind, message=pl2.message), raw_model={k: str(v) for k, v in m.items()}))
+                        else:
+                            out["errors"].append(f"twin: concrete run violated ({pl}) once but not when repeated; job={job} model={m}")
                     elif st != "ok":
                         out["errors"].append(f"twin: concrete run status {st}; job={job} model={m}")
                     else:
